@@ -45,6 +45,25 @@ def is_repo_class(c):
     return bool(f) and os.path.realpath(f).startswith(os.path.realpath(extract.REPO) + os.sep)
 
 
+class Rewrite:
+    """result of a proof annotation (asserts_after / asserts_after_in): `the variable just assigned equals this simpler value`;
+    scalars, or concrete-shape arrays (NArr) compared item by item"""
+
+    def __init__(self, value):
+        self.value = value
+
+    def equation(self, cur):
+        a, b = cur, self.value
+        if isinstance(a, NArr) and isinstance(b, NArr):
+            if a.shape != b.shape:
+                return False
+            return z3.And(*[to_z3(x, "real") == to_z3(y, "real") for x, y in zip(a.items, b.items)])
+        if isinstance(a, NArr) or isinstance(b, NArr):
+            return False
+        k = "real" if "real" in (kind_of(a), kind_of(b)) else kind_of(a)
+        return to_z3(a, k) == to_z3(b, k)
+
+
 class Interp(Engine):
     # ---------------------------------------------------------------- lookup
     def func_from_py(self, pyfunc, defcls=None):
@@ -668,9 +687,17 @@ class Interp(Engine):
         """proof annotations of the sidecar contract: `asserts_after[var]` clauses are
         proved (then assumed) right after an assignment to `var` in the carrier itself."""
         c = self.cur_contract
-        if c is None or fr.func is None or fr.func.key != self.cur_key or self.spec_mode:
+        if c is None or fr.func is None or self.spec_mode:
             return
-        ann = c.options.get("asserts_after")
+        where = ""
+        if fr.func.key == self.cur_key:
+            ann = c.options.get("asserts_after")
+        else:
+            # options["asserts_after_in"] = {"callee_name": {var: [clauses]}}: the same kind of proof annotation after an
+            # assignment inside a callee that is INLINED into this carrier (clauses see the callee's locals; `old` = carrier's entry state)
+            callee = fr.func.key.split(":")[-1]
+            ann = (c.options.get("asserts_after_in") or {}).get(callee)
+            where = f"in-{callee}/"
         if not ann:
             return
         names = [x.id for t in targets for x in ast.walk(t) if isinstance(x, ast.Name)]
@@ -680,8 +707,22 @@ class Interp(Engine):
             for j, cl in enumerate(ann.get(nm, [])):
                 lab, text = split_label(cl, f"a{j}")
                 self.cur_frame = fr
-                val = eval_clause(self, text, self.visible_vars(), fr.globs, old_vars=self.top_old, extra=self.spec_extra)
-                self.prove(f"{c.short}/annot/after-{nm}/{lab}", val, "annotation")
+                if callable(text):
+                    self.spec_mode += 1
+                    try:
+                        val = text(self, dict(self.visible_vars()), self.top_old)
+                    finally:
+                        self.spec_mode -= 1
+                    if isinstance(val, Rewrite):
+                        # proved-equal rewriting: the obligation `current value == simpler value` is emitted, then the local is
+                        # rebound to the simpler value (sound: replacing a value by one that is equal under the path condition)
+                        self.prove(f"{c.short}/annot/{where}after-{nm}/{lab}", val.equation(fr.vars[nm]), "annotation")
+                        fr.vars[nm] = val.value
+                        continue
+                    val = self.truth(val)
+                else:
+                    val = eval_clause(self, text, self.visible_vars(), fr.globs, old_vars=self.top_old, extra=self.spec_extra)
+                self.prove(f"{c.short}/annot/{where}after-{nm}/{lab}", val, "annotation")
 
     def ex_AnnAssign(self, s, fr):
         if s.value is not None:
